@@ -73,6 +73,12 @@ pub struct Case {
     /// the old descriptor (whose IN_IGNORED may still be in the stream).
     #[serde(default)]
     pub replace: Option<u8>,
+    /// Directory 0 holds a small tree (sub-directories two levels deep and a
+    /// file) and is watched once more, recursively (0: watch_directory, 1:
+    /// watch), or its file is watched (2: watch_file, 3: watch): more watch
+    /// descriptors, each with its own path.
+    #[serde(default)]
+    pub tree: Option<u8>,
 }
 
 const BUF_SIZE: usize = 272;
@@ -186,7 +192,7 @@ fn rec() -> impl Strategy<Value = Rec> {
     let name_byte = prop_oneof![10 => 0x21u8..0x7f, 1 => 0x80u8..=0xff, 1 => Just(b' ')].prop_filter_map("no slash", |b| if b == b'/' { Some(b'_') } else { Some(b) });
     let name = prop_oneof![2 => Just(Vec::new()), 6 => proptest::collection::vec(name_byte.clone(), 1..40), 1 => proptest::collection::vec(name_byte.clone(), 14..18), 1 => proptest::collection::vec(name_byte, 240..=255)];
     (
-        prop_oneof![6 => (0u8..3).prop_map(Wd::Known), 1 => any::<i32>().prop_map(Wd::Unknown)],
+        prop_oneof![6 => (0u8..8).prop_map(Wd::Known), 1 => any::<i32>().prop_map(Wd::Unknown)],
         prop_oneof![4 => any::<u32>(), 3 => (0u32..14).prop_map(|b| [1u32, 2, 4, 8, 0x10, 0x20, 0x40, 0x80, 0x100, 0x200, 0x400, 0x800, 0x2000, 0x4000_0000][b as usize])],
         any::<u32>(),
         name,
@@ -209,8 +215,9 @@ impl Property for C17 {
             proptest::option::weighted(0.3, 0u8..3),
             proptest::collection::vec(prop_oneof![2 => Just(0u16), 3 => 1u16..(1 << 14)], 0..=3),
             proptest::option::weighted(0.25, 0u8..3),
+            proptest::option::weighted(0.3, 0u8..4),
         )
-            .prop_map(|(watches, records, reads, keep, rewatch, interests, replace)| Case { watches, records, reads, keep, rewatch, interests, replace })
+            .prop_map(|(watches, records, reads, keep, rewatch, interests, replace, tree)| Case { watches, records, reads, keep, rewatch, interests, replace, tree })
             .boxed()
     }
 
@@ -223,7 +230,7 @@ impl Property for C17 {
     }
 
     fn rule() -> &'static str {
-        "proptest: a real Watcher (real inotify descriptor, real watches on temporary directories, so the watch table holds real watch descriptors; optionally one directory is renamed and watched a second time, which yields the same watch descriptor and makes the new name the path events are reported under) whose READs are answered by the simulated kernel with generated record batches: names of 0..255 bytes, kernel-rule padding and extra NUL padding, all mask bits, known and unknown watch descriptors, IN_IGNORED and IN_Q_OVERFLOW records, batched into successive reads in every way that keeps records whole and within the 272-byte buffer (the rest of the buffer holds canaries), empty reads, read errors; plus a retention plan saying for how many further yields (or until after the iterator is dropped) the caller keeps each yielded &Event. The watches are created with generated Interest subsets; the mask the kernel then holds for the watch (fdinfo) must be the union of inotify(7)'s bits for those interests. Oracle: every Event predicate (is_dir, accessed, modified, ..., file_created, file_deleted, deleted, moved, unmounted) agrees with inotify(7)'s bit for its documented meaning; yielded sequence == model (records minus IGNORED/OVERFLOW) with equal wd/mask/cookie, name without padding, path_for == watched path joined with the name (name only for unknown or forgotten wds); error yielded once then None; every retained event, re-read at its planned later point, is unchanged and still inside the live allocation it was in. Non-trivial = a read with >= 2 records, or a record followed by IGNORED for its wd, or a retention that crosses a later read. Distinct = (classes, 16-bit case hash)."
+        "proptest: a real Watcher (real inotify descriptor, real watches on temporary directories, so the watch table holds real watch descriptors; optionally directory 0 holds sub-directories and a file and is watched recursively (watch_directory / watch with Recursive::All) or its file is watched (watch_file / watch), which adds watch descriptors whose paths are found through the inode in fdinfo; optionally one directory is removed, created and watched again (one path, two descriptors); optionally one directory is renamed and watched a second time, which yields the same watch descriptor and makes the new name the path events are reported under) whose READs are answered by the simulated kernel with generated record batches: names of 0..255 bytes, kernel-rule padding and extra NUL padding, all mask bits, known and unknown watch descriptors, IN_IGNORED and IN_Q_OVERFLOW records, batched into successive reads in every way that keeps records whole and within the 272-byte buffer (the rest of the buffer holds canaries), empty reads, read errors; plus a retention plan saying for how many further yields (or until after the iterator is dropped) the caller keeps each yielded &Event. The watches are created with generated Interest subsets; the mask the kernel then holds for the watch (fdinfo) must be the union of inotify(7)'s bits for those interests. Oracle: every Event predicate (is_dir, accessed, modified, ..., file_created, file_deleted, deleted, moved, unmounted) agrees with inotify(7)'s bit for its documented meaning; yielded sequence == model (records minus IGNORED/OVERFLOW) with equal wd/mask/cookie, name without padding, path_for == watched path joined with the name (name only for unknown or forgotten wds); error yielded once then None; every retained event, re-read at its planned later point, is unchanged and still inside the live allocation it was in. Non-trivial = a read with >= 2 records, or a record followed by IGNORED for its wd, or a retention that crosses a later read. Distinct = (classes, 16-bit case hash)."
     }
 
     fn assumptions() -> Vec<&'static str> {
@@ -247,6 +254,24 @@ fn inotify_wds(fd: i32) -> Vec<i32> {
     let mut wds: Vec<i32> = text.lines().filter_map(|l| l.strip_prefix("inotify wd:")).filter_map(|r| r.split_whitespace().next()).filter_map(|n| i32::from_str_radix(n, 16).ok()).collect();
     wds.sort();
     wds
+}
+
+/// The inode watch `wd` is attached to.
+fn inotify_ino(fd: i32, wd: i32) -> Option<u64> {
+    let text = std::fs::read_to_string(format!("/proc/self/fdinfo/{fd}")).ok()?;
+    for l in text.lines() {
+        let Some(rest) = l.strip_prefix("inotify wd:") else { continue };
+        let mut it = rest.split_whitespace();
+        if i32::from_str_radix(it.next()?, 16).ok()? != wd {
+            continue;
+        }
+        for f in it {
+            if let Some(m) = f.strip_prefix("ino:") {
+                return u64::from_str_radix(m, 16).ok();
+            }
+        }
+    }
+    None
 }
 
 /// The event mask the kernel holds for watch `wd`.
@@ -361,6 +386,43 @@ fn run_case(case: &Case, ctx: &mut Ctx) {
     }
 
     let mut dirs: Vec<PathBuf> = dirs.into_iter().take(nwatch).collect();
+    if let Some(api) = case.tree {
+        use std::os::unix::fs::MetadataExt;
+        let root = dirs[0].clone();
+        let subs = [root.join("s0"), root.join("s0").join("t0"), root.join("s1")];
+        for p in &subs {
+            let _ = std::fs::create_dir_all(p);
+        }
+        let file = root.join("f0");
+        let _ = std::fs::write(&file, b"x");
+        let before = inotify_wds(ifd);
+        let r = {
+            let _s = track::scope(track::TAG_A10);
+            match api % 4 {
+                0 => watcher.watch_directory(root.clone(), Interest::ALL, Recursive::All),
+                1 => watcher.watch(root.clone(), Interest::ALL, Recursive::All),
+                2 => watcher.watch_file(file.clone(), Interest::ALL),
+                _ => watcher.watch(file.clone(), Interest::ALL, Recursive::All),
+            }
+        };
+        if let Err(e) = r {
+            ctx.infra(format!("watching the tree failed: {e}"));
+            return;
+        }
+        let mut found = 0;
+        for w in inotify_wds(ifd).into_iter().filter(|w| !before.contains(w)) {
+            let Some(ino) = inotify_ino(ifd, w) else { continue };
+            let owner = subs.iter().chain(std::iter::once(&file)).find(|p| std::fs::symlink_metadata(p).is_ok_and(|m| m.ino() == ino));
+            if let Some(p) = owner {
+                wds.push(w);
+                dirs.push(p.clone());
+                found += 1;
+            }
+        }
+        if found > 0 {
+            classes_early.push(if api % 4 < 2 { "recursive-watch" } else { "file-watch" });
+        }
+    }
     let mut replaced: Option<usize> = None;
     if let Some(k) = case.replace {
         let k = k as usize % nwatch;
